@@ -167,10 +167,97 @@ Proof.
   rewrite (run_app_eq s ";" QBare QBare [] QBetween [TokEnd; Semi] Hr); reflexivity.
 Qed.
 
-(* ---------------------------------------------------------------- the selector table of rewritePath *)
+(* ---------------------------------------------------------------- parsers: upper bounds *)
 
 Lemma vs_path_glued_safe : safe_strict vs_path QBare bare_states.
 Proof. apply safe_strict_by_check. vm_compute. reflexivity. Qed.
+
+(* accessControl allow / deny entries are plain words *)
+Theorem ip_or_cidr_word : forall s, matches ip_or_cidr_upper s = true -> in_class CWord s.
+Proof. intros s. apply bytes_in_sound. vm_compute. reflexivity. Qed.
+
+(* dropping a leading ordinary byte keeps a string neutral inside double quotes *)
+Lemma dq_tail : forall c r, Ascii.eqb c ch_dq = false -> Ascii.eqb c ch_bs = false ->
+    run QDQ (String c r) = (QDQ, []) -> run QDQ r = (QDQ, []).
+Proof.
+  intros c r Hq Hb H. cbn [run step] in H. rewrite Hb, Hq in H.
+  destruct (run QDQ r) as [q e]. cbn in H. exact H.
+Qed.
+
+Lemma dq_strip_space : forall r, run QDQ r = (QDQ, []) -> run QDQ (strip_space r) = (QDQ, []).
+Proof.
+  intros r H. destruct r as [|c r]; [exact H|]. cbn [strip_space].
+  destruct c as [[] [] [] [] [] [] [] []]; try exact H.
+  apply (dq_tail " "%char r); [reflexivity|reflexivity|exact H].
+Qed.
+
+Lemma quoted_after : forall pre body,
+    run QBetween pre = (QDQ, [TokEnd]) -> run QDQ body = (QDQ, []) ->
+    run QBetween (pre ++ body ++ dq1) = (QNeedSpace, [TokEnd; TokEnd]).
+Proof.
+  intros pre body Hp Hb.
+  rewrite (run_app_eq pre (body ++ dq1) QBetween QDQ [TokEnd] QNeedSpace [TokEnd] Hp); [reflexivity|].
+  rewrite (run_app_eq body dq1 QDQ QDQ [] QNeedSpace [TokEnd] Hb); reflexivity.
+Qed.
+
+(* a regular-expression route path (escaped string beginning with the tilde), as generatePath writes it after
+   location : the modifier word, then ONE quoted word, whatever the expression contains and whether or not a space
+   follows the modifier in the resource *)
+Theorem regex_path_quoted : forall r,
+    matches escaped (String "~" r) = true ->
+    run QBetween (gen_path (String "~" r)) = (QNeedSpace, [TokEnd; TokEnd]).
+Proof.
+  intros r Hm. pose proof (escaped_dq_safe _ Hm) as H.
+  apply (dq_tail "~"%char r) in H; [|reflexivity|reflexivity].
+  destruct r as [|c r'].
+  - cbn. reflexivity.
+  - destruct (Ascii.eqb c "*"%char) eqn:E.
+    + apply Ascii.eqb_eq in E. subst c.
+      apply (dq_tail "*"%char r') in H; [|reflexivity|reflexivity].
+      cbn [gen_path]. rewrite <- append_assoc.
+      apply (quoted_after ("~* " ++ dq1) (strip_space r')); [reflexivity|now apply dq_strip_space].
+    + assert (G : gen_path (String "~" (String c r')) = (("~ " ++ dq1) ++ strip_space (String c r') ++ dq1)%string).
+      { cbn [gen_path]. destruct c as [[] [] [] [] [] [] [] []]; try reflexivity. discriminate E. }
+      rewrite G. apply quoted_after; [reflexivity|now apply dq_strip_space].
+Qed.
+
+(* every route path the validator can accept, as generatePath writes it after  location : no structural event *)
+Theorem route_path_location_safe : forall p, matches route_path_upper p = true ->
+    exists q' e, run QBetween (gen_path p) = (q', e) /\ structural e = [] /\ In q' [QBare; QVar; QNeedSpace].
+Proof.
+  intros p Hm. unfold route_path_upper in Hm.
+  apply matches_lang in Hm. apply lang_alt in Hm. destruct Hm as [H|H].
+  - apply matches_lang in H.
+    assert (G : gen_path p = p).
+    { destruct p as [|c r]; [reflexivity|]. unfold vs_path in H. cbn [matches deriv nullable] in H.
+      destruct (Ascii.eqb c "/"%char) eqn:E; [apply Ascii.eqb_eq in E; subst c; reflexivity|].
+      cbn [mkCat] in H. now rewrite matches_empty in H. }
+    rewrite G. destruct (vs_path_bare_safe p H) as (q' & Hr & Hin). exists q', []. repeat split; auto.
+    destruct Hin as [<-|[<-|[]]]; cbn; auto.
+  - apply lang_alt in H. destruct H as [H|H].
+    + apply lang_cat in H. destruct H as (a & b & -> & Ha & Hb).
+      apply matches_lang in Hb.
+      assert (a = "="%string) as ->.
+      { inversion Ha; subst; reflexivity. }
+      cbn [append gen_path].
+      destruct (vs_path_glued_safe b Hb) as (q' & Hr & Hin).
+      exists q', []. cbn [run step step_between is_ws]. cbn. rewrite Hr. repeat split; auto.
+      destruct Hin as [<-|[<-|[]]]; cbn; auto.
+    + assert (Hm : matches (RCat (RChr "~") escaped) p = true) by now apply matches_lang.
+      destruct p as [|c r]; [discriminate Hm|].
+      cbn [matches deriv nullable] in Hm. destruct (Ascii.eqb c "~"%char) eqn:E.
+      * apply Ascii.eqb_eq in E. subst c.
+        assert (He : matches escaped (String "~" r) = true).
+        { cbn [mkCat] in Hm. apply matches_lang. apply matches_lang in Hm.
+          apply matches_lang. apply matches_lang in Hm. rewrite matches_cons.
+          (* deriv escaped tilde = escaped (tilde is an ordinary byte) *)
+          exact Hm. }
+        exists QNeedSpace, [TokEnd; TokEnd]. rewrite (regex_path_quoted r He). repeat split; cbn; auto.
+      * cbn [mkCat] in Hm. now rewrite matches_empty in Hm.
+Qed.
+
+(* ---------------------------------------------------------------- the selector table of rewritePath *)
+
 
 (* every row but the two of F65: the language the validator selects is neutral at the site the generator
    selects -- in particular the EXACT-match row at top level: strict language, bare site *)
